@@ -422,6 +422,7 @@ def run(program, ctx):
 KV = "nostr_relay/storage/kv.py"
 
 MUTANTS = [
+    M("c10-convert-reads-config", "nostr_relay/storage/kv.py", "            if len(tag) >= 2 and (\n                len(tag[0]) == 1 or tag[0] in (\"expiration\", \"delegation\")\n            ):", "            if len(tag) >= 2 and (\n                len(tag[0]) == 1 or tag[0] in (\"expiration\", \"delegation\")\n            ) and tag[0] not in (Config.get(\"unindexed_tags\") or ()):", "C10.registry"),
     M("c10-key-rstripped", "nostr_relay/storage/kv.py", "            to_save = b\"%s\\x00%s\\x00%s\" % (key, ctime, event_id)", "            to_save = b\"%s\\x00%s\\x00%s\" % (key.rstrip(b\"\\x00\"), ctime, event_id)", "C10.injective"),
     M("c10-dup-prefix", KV, "class AuthorKindIndex(Index):\n    prefix = b\"\\x04\"", "class AuthorKindIndex(Index):\n    prefix = b\"\\x03\"", "C10.keyspace", canary=True),
     M("c10-prefix-above-tombstone", KV, "class TagIndex(Index):\n    prefix = b\"\\x09\"", "class TagIndex(Index):\n    prefix = b\"\\xf0\"", "C10.keyspace"),
